@@ -20,7 +20,7 @@ ParamTypes ==
   \cup {SliceT(e, m) : e \in SliceElems, m \in {"imm", "mut", "own"}}
   \cup {StrT(e, o) : e \in {"utf8", "u8", "u16"}, o \in BOOLEAN}
 ResOk == {UnitT, P("u8"), P("i64"), P("f64"), EnumT, StructT("Inner"), StructT("Os"), K("box"), K("opq"), K("optbox")}
-ResErr == {UnitT, P("u8"), P("i32"), EnumT, StructT("Inner"), StructT("Wide")}
+ResErr == {UnitT, P("u8"), P("i32"), P("bool"), P("f32"), P("isize"), EnumT, StructT("Inner"), StructT("Wide")}
 RetTypes ==
   {P(p) : p \in Prims} \cup {EnumT, UnitT} \cup {StructT(n) : n \in InStructs \cup {"Os"}}
   \cup {K("box"), K("optbox"), K("opq"), K("optopq")}
